@@ -100,6 +100,9 @@ class Gen:
                 self.features.add("PC/CODESIZE")
             elif r < 0.86:
                 off = 32 * rng.randrange(0, 8)
+                if rng.random() < 0.12:
+                    # large but still word-aligned offsets (below 2^63; usize and EVM gas make anything larger moot)
+                    off = rng.choice([1 << 32, (1 << 32) + 0x40, 1 << 40, (1 << 62) + 0x20, (1 << 32) + 32 * rng.randrange(0, 8)])
                 self.mem_offsets.add(off)
                 if rng.random() < 0.6:
                     d = self.ensure(d, 1)
@@ -185,7 +188,7 @@ def straightline(rng, B, **kw):
 
 UNASSIGNED = [0x0c, 0x0f, 0x1e, 0x21, 0x2f, 0x49, 0x4f, 0x5c, 0x5e, 0xa5, 0xb0, 0xef, 0xf6, 0xfb]
 KINDS = ["valid", "valid", "valid", "pushdata", "nonjumpdest", "oob", "oob-far", "big32", "big64", "max", "computed-valid",
-         "computed-bad", "zero"]
+         "computed-bad", "zero", "truncated-tail"]
 
 
 def controlflow(rng, underflow_p=0.0, symbolic_p=0.0, big_stack_p=0.0):
@@ -206,6 +209,10 @@ def controlflow(rng, underflow_p=0.0, symbolic_p=0.0, big_stack_p=0.0):
                 return
         elif kind == "pushdata":
             a.push_label("PD")
+        elif kind == "truncated-tail":
+            # a 0x5b byte inside the truncated immediate of the PUSH that ends the code
+            a.push_label("TT")
+            need_tail.append(1)
         elif kind == "nonjumpdest":
             a.push_expr(lambda L, n=name: L[n] + 1, 2)
         elif kind == "oob":
@@ -234,6 +241,7 @@ def controlflow(rng, underflow_p=0.0, symbolic_p=0.0, big_stack_p=0.0):
 
     rng_k = rng.randint(0, 40)
     rng_hi = rng.randint(1, 0xffff)
+    need_tail = []
     # a push whose immediate contains JUMPDEST bytes; PD names the second byte of the immediate
     a.mark_at("PD", 2)
     a.emit(("push", 0x5b5b5b, 3), "POP")
@@ -288,6 +296,12 @@ def controlflow(rng, underflow_p=0.0, symbolic_p=0.0, big_stack_p=0.0):
                     a.emit(("push", 0, 1))
                 a.emit(h)
             feats.add("halt:" + h)
+    # the code may end in a PUSH whose immediate is cut short; TT names a 0x5b byte inside what is left of it
+    a.emit("STOP")
+    a.mark_at("TT", 2)
+    if need_tail or rng.random() < 0.2:
+        a.emit(bytes([rng.choice([0x62, 0x7f, 0x6f]), 0x5b, 0x5b]))
+        feats.add("truncated-tail-present")
     a.labels = {}
     code = a.assemble()
     canary_offsets = {a.labels["C%d" % k]: canaries[k] for k in range(len(canaries))}
@@ -462,11 +476,13 @@ def _hash_array(a, rng, slot_const, prefolded_hash=None):
     a.emit(4, "CALLDATALOAD", "ADD")
 
 
-def _sink(a, rng, allow_value_side=False):
+def _sink(a, rng, allow_value_side=False, with_real=None):
     """Consumes the top of the stack in a way that is not a storage *key*."""
     sinks = ["pop", "mstore", "log", "return", "call-arg", "revert", "eq-jumpi"]
     if allow_value_side:
         sinks += ["sstore-value"]
+    if with_real is not None:
+        sinks += ["cmp-with-sload", "cmp-with-sload", "xor-with-sload"]
     s = rng.choice(sinks)
     if s == "pop":
         a.emit("POP")
@@ -484,6 +500,11 @@ def _sink(a, rng, allow_value_side=False):
         a.emit("CALLVALUE", "EQ", "POP")
     elif s == "sstore-value":
         a.emit(0x40 + rng.randrange(4), "SSTORE")
+    elif s == "cmp-with-sload":
+        # the hash is compared with a value read from a real slot: one expression tree holds both
+        a.emit(with_real, "SLOAD", rng.choice(["EQ", "LT", "GT"]), rng.choice(["POP", [0x80, "MSTORE"]]))
+    elif s == "xor-with-sload":
+        a.emit(with_real, "SLOAD", rng.choice(["XOR", "ADD", "AND"]), 0x80, "MSTORE", 0x20, 0x80, rng.choice(["RETURN", "LOG0"]))
     return s
 
 
@@ -519,12 +540,15 @@ def lookalike(rng, hash_table_items, with_storage=False, allow_value_side=False)
             else:
                 a.emit(("push", rng.getrandbits(256), 32), fake, "XOR")
             info["fake_slots"].add(fake)
-            s = _sink(a, rng, allow_value_side and with_storage)
+            real_for_sink = rng.choice([0x10, 0x11, 0x12]) if (with_storage and rng.random() < 0.5) else None
+            s = _sink(a, rng, allow_value_side and with_storage, real_for_sink)
+            if real_for_sink is not None and s in ("cmp-with-sload", "xor-with-sload"):
+                info["real_slots"].add(real_for_sink)
             info["sinks"].add(s)
             if s == "sstore-value":
                 info["value_side"].add(fake)
                 info["real_slots"].update(range(0x40, 0x44))
-            if s in ("return", "revert"):
+            if s in ("return", "revert", "xor-with-sload"):
                 break
         if with_storage and rng.random() < 0.8:
             real = rng.choice([0x10, 0x11, 0x12, 0x13, 0x14])
@@ -773,13 +797,20 @@ def sinks(rng, B):
     for i in range(nb):
         a.label("B%d" % i)
         for _ in range(rng.randint(1, 3)):
-            k = rng.choice(["shift", "shift-mask", "exp", "sha3", "ret", "log", "call", "create", "copy", "mem", "jump",
+            k = rng.choice(["shift", "shift-mask", "const-shift", "const-alu", "exp", "sha3", "ret", "log", "call", "create", "copy", "mem", "jump",
                             "slot-arith", "mask", "mulshift", "signext-byte", "divmod", "nested-hash", "sstore-const",
                             "mstore8", "balance"])
             feats.add(k)
             if k == "shift":
                 sym()
                 a.emit(b(), rng.choice(["SHL", "SHR", "SAR"]), rng.choice([[0, "MSTORE"], [rng.randrange(4), "SSTORE"], ["POP"]]))
+            elif k == "const-shift":
+                # both operands constant: folded when used as a memory offset, jump target or mask
+                a.emit(b(), b(), rng.choice(["SHL", "SHR", "SAR"]))
+                a.emit(rng.choice([["MLOAD", "POP"], ["JUMP"], [rng.randrange(4), "SLOAD", "AND", 0, "MSTORE"], ["CALLVALUE", "SWAP1", "MSTORE"]]))
+            elif k == "const-alu":
+                a.emit(b(), b(), rng.choice(["EXP", "SDIV", "SMOD", "MULMOD" if False else "MUL", "SIGNEXTEND", "BYTE", "DIV", "MOD"]))
+                a.emit(rng.choice([["MLOAD", "POP"], ["JUMP"], [rng.randrange(4), "SLOAD", "AND", 0, "MSTORE"], ["CALLVALUE", "SWAP1", "MSTORE"]]))
             elif k == "shift-mask":
                 a.emit(rng.randrange(4), "SLOAD", b(), rng.choice(["SHR", "SHL", "SAR"]), b(), "AND", rng.randrange(4), "SSTORE")
             elif k == "exp":
